@@ -79,7 +79,13 @@ func (w *c04World) create(parent int) (string, bool) {
 	var err error
 	before := w.tokenLeases()
 	data := map[string]interface{}{"policies": []string{"p04"}, "ttl": "1h"}
-	if parent < 0 {
+	if parent == -2 {
+		// top-level token with a caller-chosen id (no "hvs." prefix: token, cubbyhole and
+		// index keys are derived from the chosen string)
+		parent = -1
+		data["id"] = fmt.Sprintf("chosen-id-%d", len(w.toks))
+		resp, err = w.s.Req(w.s.Root, logical.UpdateOperation, "auth/token/create-orphan", data)
+	} else if parent < 0 {
 		resp, err = w.s.Req(w.s.Root, logical.UpdateOperation, "auth/token/create-orphan", data)
 	} else {
 		resp, err = w.s.Req(w.toks[parent].id, logical.UpdateOperation, "auth/token/create", data)
@@ -235,7 +241,11 @@ func (w *c04World) check() (sig, msg string) {
 func (w *c04World) modelString() string {
 	var parts []string
 	for i, t := range w.toks {
-		parts = append(parts, fmt.Sprintf("%d:p%d:%v:s%d:c%d", i, t.parent, t.alive, len(t.secrets), len(t.cubby)))
+		kind := ""
+		if strings.HasPrefix(t.id, "chosen-id-") {
+			kind = ":chosen-id" // a different key derivation: never merged with an ordinary token
+		}
+		parts = append(parts, fmt.Sprintf("%d:p%d:%v:s%d:c%d%s", i, t.parent, t.alive, len(t.secrets), len(t.cubby), kind))
 	}
 	return strings.Join(parts, " ")
 }
@@ -266,6 +276,10 @@ func c04Apply(t *testing.T, img *Image, hist []c04Op, res *vout.Result) (string,
 			}
 			if msg, ok := w.create(op.Tok); !ok {
 				return "create-failed", fmt.Sprintf("step %d %s: live parent could not create a child: %s", step, op, msg), w
+			}
+		case "create-id":
+			if msg, ok := w.create(-2); !ok {
+				return "create-failed", fmt.Sprintf("step %d %s: the root token could not create a token with a chosen id: %s", step, op, msg), w
 			}
 		case "lease":
 			ok := w.lease(op.Tok)
@@ -359,7 +373,7 @@ func c04Apply(t *testing.T, img *Image, hist []c04Op, res *vout.Result) (string,
 }
 
 func c04Alphabet(ntoks int) []c04Op {
-	out := []c04Op{{"create", -1}, {"restart", 0}}
+	out := []c04Op{{"create", -1}, {"create-id", -1}, {"restart", 0}}
 	for i := 0; i < ntoks; i++ {
 		for _, k := range []string{"create", "lease", "cubby", "revoke", "revoke-self", "revoke-orphan", "revoke-accessor", "lease-revoke", "renew", "revoke+crash", "revoke-accessor+crash", "expire"} {
 			out = append(out, c04Op{k, i})
